@@ -1206,7 +1206,7 @@ def c06_oracle(ctx, g):
 # C08 — optimisations never change a result
 
 
-def shortcut_pattern(ctx):
+def shortcut_pattern(ctx, f=""):
     """patterns biased towards each shortcut"""
     r = ctx.rnd
     ast, p, alpha = gen_pattern(ctx)
@@ -1223,6 +1223,10 @@ def shortcut_pattern(ctx):
         x = r.choice(["a", "b", "[ab]", "\\w", ".", "\\n", "\\s", "\\d", "x", "z", "é", "[x-z]"])
         q = r.choice(["*", "+", "?", "{2}", "{1,3}", "*?", "+?", "{0,2}?"])
         y = r.choice(["a", "b", "[ab]", "c", "\\n", "$", "^", "\\w", "(?:a|b)", "b*", "(b)", "1", ".", "[^0-9]", "\\S", "x", "[^a]", "A", "B", "Ab", "[A-B]", "$\\nb", "^a"])
+        if "i" in f and x.isalpha() and r.random() < 0.4:
+            y = x.upper() + r.choice(["", "b", "$"])          # the same letter in the other case
+        if "m" in f and r.random() < 0.3:
+            x, y = r.choice(["\\n", "[^,]", "\\s"]), r.choice(["$\\nb", "$", "^a", "\\n"])
         tail = r.choice(["", p])
         if not tail:
             fe = set()
@@ -1237,8 +1241,8 @@ def c08_streams(ctx):
     gs = []
     n = ctx.scale(2500, 35000)
     for i in range(n):
-        p, alpha, fe = shortcut_pattern(ctx)
         f = r.choice(FLAGSETS)
+        p, alpha, fe = shortcut_pattern(ctx, f)
         for _ in range(2):
             s = rand_input(ctx, alpha + "1xzé", 8, "\n" if ("m" in f or r.random() < 0.3) else "")
             cs = []
